@@ -46,6 +46,31 @@ CLAIMED['C13'] = dict(
     technique='Coq list-induction proofs over a model regenerated from source by a fail-closed ast translator + differential correspondence',
     design='5/C13')
 
+CLAIMED['C07'] = dict(
+    text='Machine-checked proof (Coq 8.16.1): executable model of the command path (incoming FIFO, relay thread with '
+         'try_again_on_error, per-trace FIFO queues created/deleted at trace start/end, the prompt() loop discarding '
+         'mismatching prompt numbers, run-unique prompt counter); labels interleave Send/Relay/StartTrace/EndTrace/OpenPrompt/Take '
+         'arbitrarily. Theorems for every label sequence: the command closing prompt (t,p) is a sent command addressed to '
+         'exactly (t,p), executed at most once; already-answered / other-trace / non-existent-prompt commands are never executed; '
+         'deleting never-executed commands leaves every other step unchanged. The clause "a FUTURE-addressed command is discarded" '
+         'is REFUTED (C07_decoys_discarded_refuted, witness replayed on the real code: known finding) and proved under the '
+         'arrival-time hypothesis. Tie: real spawned.main with a decoy-injecting responder vs the model (vm_compute).',
+    note='Trusted: Coq kernel; harness (responder, linearisation by prompt counter). Modelled: queue.Queue FIFO/thread-safe; '
+         'Pdb executes the string the prompt function returns. One recorded known finding (future-command-executed). No axioms.',
+    technique='Coq invariant proofs over an interleaving LTS model; refuted clause with vm_compute witness; differential correspondence',
+    design='5/C07')
+CLAIMED['C06'] = dict(
+    text='Machine-checked proof (Coq 8.16.1): model of TaskAndThreadKeeper / ThreadTaskIdComposer / TaskOrThreadToTraceMapper '
+         '(counters and finite maps over actors = (thread, optional task)); theorems for every label sequence: trace numbers are '
+         'injective and sequential in start order, the (thread no, task no) pair identifies the actor consistently, every event '
+         'is attributed to the trace of the actor that produced it, and a trace blocked at an unanswered prompt does not disable '
+         'any label of another trace (non-interference relation). Tie: generated threaded/asyncio programs run through the '
+         'real spawned-side code vs the model (vm_compute), with a responder withholding answers for random traces. '
+         'PARTIAL: the liveness half (other threads really keep running) depends on the GIL/OS scheduler and is only validated by the runs.',
+    note='Trusted: Coq kernel; harness. Modelled: itertools.count atomic, weak-dict liveness, queue.Queue. No axioms.',
+    technique='Coq invariant + non-interference proofs; differential correspondence on generated concurrent programs',
+    design='5/C06')
+
 NOT_YET = {
 }
 
